@@ -454,14 +454,12 @@ Section Group.
   Qed.
 
   Lemma sign_loop_ret d z : forall fuel k0 sig, sign_loop' fuel d z k0 = Ret sig ->
-    exists k, k0 <= k /\ sign_step' d z k = Ret (Some sig) /\
-              forall i, k0 <= i < k -> sign_step' d z i = Ret None.
+    exists k, sign_step' d z k = Ret (Some sig).
   Proof.
     induction fuel as [|f IH]; intros k0 sig H; cbn [sign_loop] in H; [discriminate|].
     destruct (sign_step' d z k0) as [[sg|]| |] eqn:E; cbn [bind] in H; try discriminate.
-    - inversion H; subst. exists k0. split; [lia|]. split; [exact E|]. intros; lia.
-    - apply IH in H. destruct H as [k [Hk [Hs Hb]]]. exists k. split; [lia|]. split; [exact Hs|].
-      intros i Hi. destruct (Z.eq_dec i k0) as [->|]; [exact E|]. apply Hb. lia.
+    - inversion H; subst. exists k0. exact E.
+    - apply IH in H. exact H.
   Qed.
 
   (* the point that verify computes for the signer's key is the nonce point *)
@@ -496,8 +494,7 @@ Section Group.
   Local Notation sign_with_recid' := (sign_with_recid pt smul G n coords gen_k).
 
   Lemma sign_ret fuel d z r s c : sign_with_recid' fuel d z = Ret (r, s, c) ->
-    z <> 0 /\ exists k0 k, gen_k n d z = Ret k0 /\ k0 <= k /\ sign_step' d z k = Ret (Some (r, s, c)) /\
-                         forall i, k0 <= i < k -> sign_step' d z i = Ret None.
+    z <> 0 /\ exists k0 k, gen_k n d z = Ret k0 /\ sign_step' d z k = Ret (Some (r, s, c)).
   Proof.
     unfold sign_with_recid. intros H. destruct (z =? 0) eqn:Ez; [discriminate|].
     split; [lia|].
@@ -508,7 +505,7 @@ Section Group.
   Theorem sign_verifies fuel d z r s c : sign_with_recid' fuel d z = Ret (r, s, c) ->
     1 <= r < n /\ 1 <= s < n /\ 0 <= c < 4 /\ verify' (Some (smul d G)) z r s = Ret true.
   Proof.
-    intros H. apply sign_ret in H. destruct H as [Hz [k0 [k [_ [_ [Hs _]]]]]].
+    intros H. apply sign_ret in H. destruct H as [Hz [k0 [k [_ Hs]]]].
     apply sign_step_sig in Hs. destruct Hs as [Hsig [Hc _]].
     destruct (sig_with_nonce_verifies d z k r s Hz Hsig) as [Hr [Hs' [Hv _]]]. tauto.
   Qed.
@@ -576,41 +573,118 @@ Section Group.
     destruct (_ && _); discriminate.
   Qed.
 
-  Lemma sign_loop_no_fuel d z : forall fuel k, (- k) mod n < Z.of_nat fuel -> sign_loop' fuel d z k <> OutOfFuel.
+  (* k*G is the point at infinity only for multiples of the order: G <> O and n is prime *)
+  Hypothesis G_nonzero : G <> O.
+
+  Lemma smul_G_O k : smul k G = O -> k mod n = 0.
   Proof.
-    induction fuel as [|f IH]; intros k Hk.
-    - pose proof (Z.mod_pos_bound (- k) n ltac:(lia)). lia.
-    - cbn [sign_loop]. pose proof (sign_step_no_fuel d z k) as Hnf.
-      destruct (sign_step' d z k) as [[sg|]| |] eqn:E; cbn [bind]; try discriminate; [|congruence].
-      apply IH.
-      destruct (Z.eq_dec (k mod n) 0) as [Hk0|Hk0].
-      + exfalso. assert (smul k G = O) as HO.
-        { rewrite (smul_eqm k 0 G), smul_0; [reflexivity|]. apply eqm_zero. exact Hk0. }
-        unfold sign_step in E. rewrite HO, (gl_coords_O _ _ _ _ _ _ _ GL) in E. discriminate.
-      + assert (Hm : (- k) mod n = n - k mod n) by (apply Z.mod_opp_l_nz; lia).
-        assert (Hm' : (- (k + 1)) mod n = (- k) mod n - 1).
-        { pose proof (Z.mod_pos_bound k n ltac:(lia)).
-          symmetry. apply (Z.mod_unique_pos _ _ ((- k) / n)); [lia|].
-          pose proof (Z.div_mod (- k) n ltac:(lia)). lia. }
-        lia.
+    intros H. destruct (Z.eq_dec (k mod n) 0) as [E|E]; [exact E|]. exfalso.
+    destruct (inverse_ok k E) as [u [_ Hu]]. apply G_nonzero.
+    rewrite <- (gl_smul_1 _ _ _ _ _ _ _ GL G), <- (smul_eqm (u * k) 1 G).
+    - rewrite (gl_smul_mul _ _ _ _ _ _ _ GL), H. apply smul_O.
+    - rewrite <- Hu. apply eqm_refl'. ring.
   Qed.
 
-  Lemma sign_loop_fuel_n fuel d z k : n <= Z.of_nat fuel -> sign_loop' fuel d z k <> OutOfFuel.
+  Lemma sign_step_in_range d z k : 1 <= k < n -> exists o, sign_step' d z k = Ret o.
   Proof.
-    intros H. apply sign_loop_no_fuel. pose proof (Z.mod_pos_bound (- k) n ltac:(lia)). lia.
+    intros Hk. pose proof (sign_step_no_fuel d z k) as Hf.
+    destruct (sign_step' d z k) as [o| e |] eqn:E; [eauto| |congruence].
+    exfalso. apply sign_step_raise in E. destruct E as [_ Hc].
+    apply (gl_coords_None _ _ _ _ _ _ _ GL) in Hc. apply smul_G_O in Hc. rewrite Z.mod_small in Hc; lia.
   Qed.
 
-  (* a raise of the loop is the TypeError at a multiple of the order, every nonce before it rejected *)
-  Lemma sign_loop_raise d z : forall fuel k0 e, sign_loop' fuel d z k0 = Raise e ->
-    e = E_TYPE /\ exists j, k0 <= j /\ coords (smul j G) = None /\ forall i, k0 <= i < j -> sign_step' d z i = Ret None.
+  (* the successor of the retry rule: k += 1; if k >= n: k = 1 *)
+  Definition next_k (k : Z) : Z := if n <=? k + 1 then 1 else k + 1.
+
+  Lemma next_k_range k : 1 <= k < n -> 1 <= next_k k < n.
+  Proof. unfold next_k. destruct (n <=? k + 1) eqn:E; lia. Qed.
+
+  Lemma sign_loop_unfold fuel d z k : sign_loop' (S fuel) d z k =
+    bind (sign_step' d z k) (fun o => match o with Some sig => Ret sig | None => sign_loop' fuel d z (next_k k) end).
+  Proof. reflexivity. Qed.
+
+  (* started inside [1, n-1] the loop never raises, whatever the fuel *)
+  Lemma sign_loop_never_raises d z : forall fuel k e, 1 <= k < n -> sign_loop' fuel d z k <> Raise e.
   Proof.
-    induction fuel as [|f IH]; intros k0 e H; cbn [sign_loop] in H; [discriminate|].
-    destruct (sign_step' d z k0) as [[sg|]| |] eqn:E; cbn [bind] in H; try discriminate.
-    - apply IH in H. destruct H as [He [j [Hj [Hc Hb]]]]. split; [exact He|]. exists j. split; [lia|]. split; [exact Hc|].
-      intros i Hi. destruct (Z.eq_dec i k0) as [->|]; [exact E|]. apply Hb. lia.
-    - inversion H; subst. apply sign_step_raise in E. destruct E as [He Hc]. split; [exact He|].
-      exists k0. split; [lia|]. split; [exact Hc|]. intros; lia.
+    induction fuel as [|f IH]; intros k e Hk; [discriminate|].
+    rewrite sign_loop_unfold. destruct (sign_step_in_range d z k Hk) as [[sg|] ->]; cbn [bind]; [discriminate|].
+    apply IH. apply next_k_range. exact Hk.
   Qed.
+
+  (* a nonce that gives non-zero r and s, in textbook terms *)
+  Definition nonce_good (d z j : Z) : Prop :=
+    exists x y, coords (smul j G) = Some (x, y) /\ x mod n <> 0 /\ (z + (x mod n) * d) mod n <> 0.
+
+  Lemma nonce_good_step d z j : nonce_good d z j -> exists sig, sign_step' d z j = Ret (Some sig).
+  Proof.
+    intros [x [y [Hc [Hr Hs]]]].
+    assert (Hjn : j mod n <> 0).
+    { intros Hj0. assert (smul j G = O) as HO.
+      { rewrite (smul_eqm j 0 G), smul_0; [reflexivity|]. apply eqm_zero. exact Hj0. }
+      rewrite HO, (gl_coords_O _ _ _ _ _ _ _ GL) in Hc. discriminate. }
+    destruct (inverse_ok j Hjn) as [ik [Hi Hik]].
+    unfold sign_step. rewrite Hc, Hi. cbn [bind].
+    set (r := x mod n) in *. set (s := (ik * (z + (d * r) mod n)) mod n).
+    assert (Hsk : s * j == z + r * d).
+    { subst s. rewrite eqm_mod, eqm_mod.
+      replace (ik * (z + d * r) * j) with ((j * ik) * (z + r * d)) by ring. rewrite Hik. apply eqm_refl'. ring. }
+    assert (Hs0 : s <> 0).
+    { intros E. apply Hs. apply (proj1 (eqm_zero n _)). rewrite <- Hsk, E. apply eqm_refl'. ring. }
+    destruct (negb (r =? 0) && negb (s =? 0)) eqn:Eb; [eauto|lia].
+  Qed.
+
+  (* the loop walks k, k+1, .., n-1, 1, 2, ..: every residue of [1, n-1] is reached within n-1 iterations, so a
+     good nonce anywhere in [1, n-1] makes it return *)
+  Lemma sign_loop_total d z j : 1 <= j < n -> nonce_good d z j ->
+    forall fuel k, 1 <= k < n -> (j - k) mod (n - 1) < Z.of_nat fuel -> exists sig, sign_loop' fuel d z k = Ret sig.
+  Proof.
+    intros Hj Hgood. induction fuel as [|f IH]; intros k Hk Hd.
+    - pose proof (Z.mod_pos_bound (j - k) (n - 1) ltac:(lia)). lia.
+    - rewrite sign_loop_unfold. destruct (sign_step_in_range d z k Hk) as [[sg|] Hst]; rewrite Hst; cbn [bind]; [eauto|].
+      assert (Hjk : j <> k).
+      { intros ->. destruct (nonce_good_step d z k Hgood) as [sig Hs]. congruence. }
+      apply IH; [apply next_k_range; exact Hk|].
+      assert (Hm : (j - k) mod (n - 1) <> 0).
+      { intros E. apply Z.mod_divide in E; [|lia]. destruct E as [q Hq].
+        assert (q = 0) by nia. subst q. lia. }
+      assert (Hnx : (j - next_k k) mod (n - 1) = (j - k) mod (n - 1) - 1).
+      { pose proof (Z.mod_pos_bound (j - k) (n - 1) ltac:(lia)) as Hb.
+        pose proof (Z.div_mod (j - k) (n - 1) ltac:(lia)) as Hdm.
+        unfold next_k. destruct (n <=? k + 1) eqn:E.
+        - symmetry. apply (Z.mod_unique_pos _ _ ((j - k) / (n - 1) + 1)); lia.
+        - symmetry. apply (Z.mod_unique_pos _ _ ((j - k) / (n - 1))); lia. }
+      lia.
+  Qed.
+
+  Lemma sign_loop_total_n d z j fuel k : 1 <= j < n -> nonce_good d z j -> 1 <= k < n -> n - 1 <= Z.of_nat fuel ->
+    exists sig, sign_loop' fuel d z k = Ret sig.
+  Proof.
+    intros Hj Hg Hk Hf. apply (sign_loop_total d z j Hj Hg fuel k Hk).
+    pose proof (Z.mod_pos_bound (j - k) (n - 1) ltac:(lia)). lia.
+  Qed.
+
+  Section TotalGenK.
+  Variable gen_k : Z -> Z -> Z -> outcome Z.
+  Local Notation sign_with_recid' := (sign_with_recid pt smul G n coords gen_k).
+
+  Lemma sign_never_raises fuel d z e : z <> 0 -> (forall e', gen_k n d z <> Raise e') ->
+    (forall k0, gen_k n d z = Ret k0 -> 1 <= k0 < n) -> sign_with_recid' fuel d z <> Raise e.
+  Proof.
+    intros Hz Hnr Hrange. unfold sign_with_recid. destruct (z =? 0) eqn:Ez; [lia|].
+    destruct (gen_k n d z) as [k0|e'|] eqn:Ek; cbn [bind].
+    - apply sign_loop_never_raises. apply Hrange. reflexivity.
+    - exfalso. apply (Hnr e'). reflexivity.
+    - discriminate.
+  Qed.
+
+  Lemma sign_total fuel d z k0 j : z <> 0 -> gen_k n d z = Ret k0 -> 1 <= k0 < n ->
+    1 <= j < n -> nonce_good d z j -> n - 1 <= Z.of_nat fuel ->
+    exists sig, sign_with_recid' fuel d z = Ret sig.
+  Proof.
+    intros Hz Hk Hk0 Hj Hg Hf. unfold sign_with_recid. destruct (z =? 0) eqn:Ez; [lia|].
+    rewrite Hk. cbn [bind]. apply (sign_loop_total_n d z j fuel k0 Hj Hg Hk0 Hf).
+  Qed.
+  End TotalGenK.
 
   (* ---- recovery ---- *)
   Definition candidate (z r s ir : Z) (R : pt) : pt := add (smul (s * ir) R) (smul (- (ir * z)) G).
@@ -652,25 +726,27 @@ Section Group.
   Qed.
 
   Section Recover.
+  Variable p : Z.
   Variable lift_x : Z -> option (pt * pt).
-  Variable x_canon : Z -> Prop.
-  Local Notation recover' := (recover pt add smul G n lift_x).
+  Local Notation recover' := (recover pt add smul G n p lift_x).
+  Local Notation x_canon := (fun x : Z => 0 <= x < p).
 
-  Lemma recover_in_range z r s yp P0 P1 : 1 <= r < n -> 1 <= s < n -> lift_x r = Some (P0, P1) ->
+  Lemma recover_in_range z r s yp P0 P1 : 1 <= r < n -> 1 <= s < n -> r < p -> lift_x r = Some (P0, P1) ->
     exists ir, inverse n r = Ret ir /\ r * ir == 1 /\
                recover' z r s yp = Ret (map (candidate z r s ir) (select yp P0 P1)).
   Proof.
-    intros Hr Hs Hl. destruct (inverse_ok r (in_range_nz r Hr)) as [ir [Hi Hir]].
+    intros Hr Hs Hp Hl. destruct (inverse_ok r (in_range_nz r Hr)) as [ir [Hi Hir]].
     exists ir. split; [exact Hi|]. split; [exact Hir|].
-    unfold recover. rewrite (proj2 (out_of_range_false r s)) by tauto. rewrite Hl, Hi. cbn [bind].
+    unfold recover. rewrite (proj2 (out_of_range_false r s)) by tauto.
+    destruct (p <=? r) eqn:Ep; [lia|]. rewrite Hl, Hi. cbn [bind].
     f_equal. unfold select. destruct yp as [yp|]; [|reflexivity].
     rewrite land1. destruct (Z.odd yp); reflexivity.
   Qed.
 
-  Lemma recover_empty z r s yp : ~ (1 <= r < n /\ 1 <= s < n) -> recover' z r s yp = Ret [].
+  Lemma recover_empty z r s yp : ~ (1 <= r < n /\ 1 <= s < n /\ r < p) -> recover' z r s yp = Ret [].
   Proof.
     intros H. unfold recover. destruct (out_of_range n r s) eqn:E; [reflexivity|].
-    apply out_of_range_false in E. contradiction.
+    apply out_of_range_false in E. destruct (p <=? r) eqn:Ep; [reflexivity|]. exfalso. apply H. lia.
   Qed.
 
   Hypothesis LL : lift_laws pt coords lift_x x_canon.
@@ -680,32 +756,25 @@ Section Group.
     unfold select. destruct yp as [yp|]; [destruct (Z.odd yp)|]; cbn; intuition.
   Qed.
 
-  Theorem recover_sound z r s yp l Q : z <> 0 -> x_canon r ->
+  Theorem recover_sound z r s yp l Q : z <> 0 ->
     recover' z r s yp = Ret l -> In Q l -> verify' (Some Q) z r s = Ret true.
   Proof.
-    intros Hz Hcan H Hin.
+    intros Hz H Hin.
     destruct (out_of_range n r s) eqn:E.
     { unfold recover in H. rewrite E in H. inversion H; subst. destruct Hin. }
+    destruct (p <=? r) eqn:Ep.
+    { unfold recover in H. rewrite E, Ep in H. inversion H; subst. destruct Hin. }
     apply out_of_range_false in E. destruct E as [Hr Hs].
     destruct (lift_x r) as [[P0 P1]|] eqn:El.
-    2:{ unfold recover in H. rewrite (proj2 (out_of_range_false r s)), El in H by tauto. inversion H; subst. destruct Hin. }
-    destruct (recover_in_range z r s yp P0 P1 Hr Hs El) as [ir [_ [Hir Hrec]]].
+    2:{ unfold recover in H. rewrite (proj2 (out_of_range_false r s)), Ep, El in H by tauto. inversion H; subst. destruct Hin. }
+    destruct (recover_in_range z r s yp P0 P1 Hr Hs ltac:(lia) El) as [ir [_ [Hir Hrec]]].
     rewrite Hrec in H. inversion H; subst l. apply in_map_iff in Hin. destruct Hin as [R [HQ HR]]. subst Q.
     destruct (verify_in_range (candidate z r s ir R) z r s Hz Hr Hs) as [si [_ [Hsi Hv]]].
     rewrite Hv, (candidate_point z r s ir si R Hir Hsi). f_equal.
+    assert (Hcan : 0 <= r < p) by lia.
     destruct (ll_sound _ _ _ _ LL r P0 P1 El Hcan) as [[y0 [H0 _]] [y1 [H1 _]]].
     unfold verdict. apply select_in in HR. destruct HR as [-> | ->]; [rewrite H0|rewrite H1];
       rewrite Z.mod_small by lia; lia.
-  Qed.
-
-  Theorem recover_sound_below : (forall x, 1 <= x < n -> x_canon x) ->
-    forall z r s yp l Q, z <> 0 -> recover' z r s yp = Ret l -> In Q l -> verify' (Some Q) z r s = Ret true.
-  Proof.
-    intros Hb z r s yp l Q Hz H Hin.
-    destruct (out_of_range n r s) eqn:E.
-    { unfold recover in H. rewrite E in H. inversion H; subst. destruct Hin. }
-    apply out_of_range_false in E. destruct E as [Hr Hs].
-    apply (recover_sound z r s yp l Q Hz (Hb r Hr) H Hin).
   Qed.
 
   (* every key under which (r, s) verifies with a sum point of abscissa exactly r is recovered,
@@ -717,12 +786,13 @@ Section Group.
   Proof.
     intros Hz Hr Hs Hsi Hc.
     destruct (ll_complete _ _ _ _ LL _ _ _ Hc) as [P0 [P1 [El HR]]].
+    pose proof (ll_range _ _ _ _ LL _ _ _ Hc) as Hrp. cbv beta in Hrp.
     split.
-    - destruct (recover_in_range z r s None P0 P1 Hr Hs El) as [ir [_ [Hir Hrec]]].
+    - destruct (recover_in_range z r s None P0 P1 Hr Hs ltac:(lia) El) as [ir [_ [Hir Hrec]]].
       eexists. split; [exact Hrec|]. apply in_map_iff. exists (sum_point Q z r si).
       split; [apply point_candidate; assumption|]. rewrite HR. cbn. destruct (Z.odd y); auto.
     - intros yp Hyp.
-      destruct (recover_in_range z r s (Some yp) P0 P1 Hr Hs El) as [ir [_ [Hir Hrec]]].
+      destruct (recover_in_range z r s (Some yp) P0 P1 Hr Hs ltac:(lia) El) as [ir [_ [Hir Hrec]]].
       rewrite Hrec. f_equal. unfold select. rewrite Hyp.
       rewrite <- (point_candidate z r s ir si Q Hir Hsi). rewrite HR.
       destruct (Z.odd y); reflexivity.
@@ -743,7 +813,7 @@ Section Group.
   Theorem recover_signer fuel d z r s c : sign_with_recid' fuel d z = Ret (r, s, c) -> c < 2 ->
     recover' z r s (Some c) = Ret [smul d G] /\ exists l, recover' z r s None = Ret l /\ In (smul d G) l.
   Proof.
-    intros H Hc. apply (sign_ret gen_k) in H. destruct H as [Hz [k0 [k [_ [_ [Hs _]]]]]].
+    intros H Hc. apply (sign_ret gen_k) in H. destruct H as [Hz [k0 [k [_ Hs]]]].
     apply sign_step_sig in Hs. destruct Hs as [Hsig [_ [x [y [Hxy Hcc]]]]].
     destruct (sig_with_nonce_verifies d z k r s Hz Hsig) as [Hr [Hs' [_ Hpt]]].
     destruct (inverse_ok s (in_range_nz s Hs')) as [si [_ Hsi]].
